@@ -22,7 +22,9 @@ RULE = (
     "history (<=20 quick / <=50 thorough steps) over one root probe on fa(w as b0, !u as b1) (optionally with a "
     "second selector fb(!u)): {attach stage "
     "(accum, getitem, map, filter | count, sum, min, max, last, take_last), activate (with / values() / "
-    "global), call <plan>, deactivate (normal / by exception / deactivate()), re-activation attempt, redundant second deactivation, "
+    "global, also from inside a running call, optionally with a second probe in the same frame), call <plan>, "
+    "deactivate (normal / by an Exception / by a BaseException / deactivate(), through the probe or a handle "
+    "derived from it), re-activation attempt, redundant second deactivation, "
     "deactivation from inside a running call, background probe on/off}. evaluations = operations applied. Non-trivial = >=1 stage attached "
     "mid-stream, >=1 reducing stage, and events both inside and outside the active period; distinct by "
     "history hash."
